@@ -534,7 +534,7 @@ def run(ctx):
     if not h.caps_ok:
         ctx.assumptions.append("capset refused: read-only directories / unreadable files do not bind in this run")
     ctx.assumptions += [
-        "mtimes are whole seconds set with os.utime from a logical clock (file system granularity <= 1 s); an edit makes the source 2 ticks newer than anything existing; a cache file written by a run carries the tick of that run",
+        "mtimes are set with os.utime from a logical clock of 1/16 s ticks, so neighbouring ticks share a wall-clock second (file system granularity <= 62.5 ms assumed); an edit makes the source 2 ticks newer than anything existing; a cache file written by a run carries the tick of that run",
         "scripts are addressed by the relative name `s.xsh` from their directory, as `xonsh s.xsh` does",
         "rebuild of a foreign/damaged entry is demanded only with scriptcache & $XONSH_CACHE_SCRIPTS on (scripts, stdin code) resp. cacheall & $XONSH_CACHE_EVERYTHING on (-c code) and a writable directory",
     ]
